@@ -105,7 +105,15 @@ def op_strategy(weights=None):
             I, st.integers(0, 16), st.integers(0, 3), st.integers(0, 4), st.integers(0, 3),
             st.lists(st.tuples(st.integers(1, 3), st.integers(1, 4), st.integers(0, 3)), min_size=1, max_size=3),
         ).map(lambda t: ("seq", [["add_chart", t[0], t[1], t[2], t[3], t[4]]]
-                                + [["replace_data", t[0], -1, a, b, c] for a, b, c in t[5]])),
+                                + [["replace_data", t[0], -1, a, b, c] for a, b, c in t[5]])) | st.tuples(
+            # turbo mode on one slide: switched on for the slide's collection, shapes added through a group and
+            # through the slide, the mode assigned again (same or other value) in between
+            I, st.lists(st.one_of(st.tuples(st.just("t"), st.booleans()), st.tuples(st.just("g"), I),
+                                  st.tuples(st.just("s"), I)), min_size=3, max_size=7),
+        ).map(lambda t: ("seq", [["add_group", t[0], 0, 1], ["turbo", t[0], 0, True]] + [
+            ["turbo", t[0], 0, x[1]] if x[0] == "t" else
+            ["add_shape", t[0], 1 + x[1] % 3, x[1], 0, 0, 914400, 914400] if x[0] == "g" else
+            ["add_textbox", t[0], 0, 0, 0, 914400, 914400] for x in t[1]])),
         "save": st.tuples(st.just("save")),
         "save_reopen": st.tuples(st.just("save_reopen")),
     }
